@@ -92,6 +92,23 @@ Definition yield_known (prod check : areg) (b : block) : Prop :=
   forall x, In x (yielding_addrs (kept_of b)) ->
             is_registered prod x = true -> is_registered check x = true.
 
+(* the vocabulary, unfolded *)
+Lemma confirmed_only_unfold (reg u0 : ureg) (b : block) :
+  confirmed_only reg u0 b <-> conf_run (b_ts b) reg u0 (removelast (txs b)).
+Proof. apply iff_refl. Qed.
+
+Lemma conf_run_unfold (next : Z) (reg u : ureg) (t : tx) (r : list tx) :
+  conf_run next reg u (t :: r) <->
+  (forall i, In i (ins t) -> exists x, find_utxo reg i = Ok x /\ find_utxo u i = Ok x) /\
+  (forall u', update_utxos u [t] next = Ok u' -> conf_run next reg u' r).
+Proof. apply iff_refl. Qed.
+
+Lemma yield_known_unfold (prod check : areg) (b : block) :
+  yield_known prod check b <->
+  forall x, In x (yielding_addrs (removelast (txs b))) ->
+            is_registered prod x = true -> is_registered check x = true.
+Proof. apply iff_refl. Qed.
+
 Section Honest.
   Variable value_fn : N -> bool -> Z -> N.
   Variable addr_of : string -> string.
@@ -434,16 +451,17 @@ Section Honest.
     rewrite Erl.
     assert (Hlb : last_block (old ++ [tip]) = Some tip) by apply last_block_snoc.
     remember (old ++ [tip]) as oh eqn:Eoh.
+    assert (Hch' : chain (n_c n) = old ++ [tip]) by (rewrite Hch; exact Eoh).
     set (sh0 := mkC oh (ur peer) (ar peer)).
     assert (Hconf0 : confirmed_only (ur sh0) (ur (n_c n')) b) by (cbn [sh0 ur]; rewrite Hpu; exact Hconf).
-    destruct (produced_block_checked n ts perm n' d old tip b sh0 now Hv Hch Hlast Hnz Hts Hnow Hfee
+    destruct (produced_block_checked n ts perm n' d old tip b sh0 now Hv Hch' Hlast Hnz Hts Hnow Hfee
                                      Hconf0 Hy) as [_ [_ [Hprev [_ Hvb]]]].
     destruct oh as [|o r]; [destruct old; discriminate Eoh|].
     unfold verify. cbv beta iota. rewrite Hpl, Hprev, hash_eqb_refl. cbn [negb].
     fold sh0. cbn [verify_loop]. rewrite Hlb.
     rewrite (verify_step_new_0 [b'] now sh0 tip b b' Hprev eq_refl Hne Hvb).
     apply (verify_tail_ok _ b u1); [apply last_block_snoc|].
-    cbn [ur]. rewrite Hpu. exact Hrep.
+    cbn [ur]. unfold sh0. cbn [ur]. rewrite Hpu. exact Hrep.
   Qed.
 
   (* the registered addresses of a receiver that has applied the tip: the producer's minus what
@@ -524,4 +542,276 @@ Section Honest.
     rewrite (add_block_raw_tip sh1 tip b (ur (n_c n')) Hl1 E0').
     apply (verify_tail_ok _ b u1); [apply last_block_snoc|exact Hrep].
   Qed.
+
+  Theorem full_resync_reachable (n : node) (ts : Z) (perm : list nat) (n' : node)
+        (d : list (string * drop)) (old : list block) (tip b : block) (now : Z)
+        (sh1 : cstate) (u1 : ureg) :
+    REACH n ->
+    VALIDATE n ts perm = (n', Produced d) ->
+    chain (n_c n) = old ++ [tip] ->
+    last_block (chain (n_c n')) = Some b ->
+    VLOOP old now 0 (mkC [] ureg_empty areg_empty) None (old ++ [tip]) = Ok sh1 ->
+    b_ts tip <> 0%Z -> ts = (b_ts tip + s_interval S)%Z -> (ts <= now)%Z -> 0 < s_fee S ->
+    confirmed_only (ur (n_c n)) (ur (n_c n')) b ->
+    update_utxos (ur (n_c n')) (txs b) (b_ts b) = Ok u1 ->
+    VERIFY (n_c n) (removelast (chain (n_c n))) (chain (n_c n) ++ [b]) [] now = Ok (chain (n_c n) ++ [b]).
+  Proof.
+    intros Hr Hv Hch Hlast Hloop Hnz Hts Hnow Hfee Hconf Hrep.
+    destruct (reach_denotes _ _ _ _ _ _ _ n Hr) as [a [Hrp Hreg]].
+    rewrite Hch, removelast_last in Hrp.
+    exact (full_resync_confirmed_only n ts perm n' d old tip b now sh1 a u1 Hv Hch Hlast Hloop Hrp Hreg
+             Hnz Hts Hnow Hfee Hconf Hrep).
+  Qed.
+
+  (* the competitor case for a receiver whose registered addresses are the producer's with the
+     tip applied *)
+  Theorem competitor_tip_applied (n : node) (ts : Z) (perm : list nat) (n' : node)
+        (d : list (string * drop)) (old : list block) (tip b b' : block) (peer : cstate)
+        (now : Z) (u1 : ureg) :
+    VALIDATE n ts perm = (n', Produced d) ->
+    chain (n_c n) = old ++ [tip] ->
+    last_block (chain (n_c n')) = Some b ->
+    chain peer = old ++ [tip; b'] -> ur peer = ur (n_c n') ->
+    ar peer = reg_update (ar (n_c n)) (elems (b_added tip)) (elems (b_removed tip)) ->
+    b_prev b' = H tip -> H b <> H b' ->
+    b_ts tip <> 0%Z -> ts = (b_ts tip + s_interval S)%Z -> (ts <= now)%Z -> 0 < s_fee S ->
+    confirmed_only (ur (n_c n')) (ur (n_c n')) b ->
+    (forall x, In x (yielding_addrs (kept_of b)) -> In x (elems (b_removed tip)) ->
+               In x (elems (b_added tip))) ->
+    update_utxos (ur (n_c n')) (txs b) (b_ts b) = Ok u1 ->
+    VERIFY peer [b'] [b] (removelast (chain peer)) now = Ok [b].
+  Proof.
+    intros Hv Hch Hlast Hpc Hpu Hpa Hpl Hne Hnz Hts Hnow Hfee Hconf Hnr Hrep.
+    apply (competitor_last_block_spend n ts perm n' d old tip b b' peer now u1); try assumption.
+    rewrite Hpa. apply yield_known_after_tip. exact Hnr.
+  Qed.
 End Honest.
+
+(* ------------------------------------------------------------------ *)
+(* concrete histories: the two refused honest blocks, the address the  *)
+(* tip has just removed, and an accepted wallet-style block            *)
+(* ------------------------------------------------------------------ *)
+Module HonestExample.
+  Import SyncExample ReachExample.
+  Local Open Scope string_scope.
+
+  Local Notation STEP := (step vf ao so Hinj gid Sx "V").
+  Local Notation RCH := (reach vf ao so Hinj gid Sx "V").
+  Local Notation VAL := (validate vf ao so Hinj gid Sx "V").
+  Local Notation VER := (verify vf ao so Hinj Sx).
+
+  Definition tip_of_node (n : node) : block :=
+    match last_block (chain (n_c n)) with Some b => b | None => SyncExample.g end.
+  Definition log_of (o : outcome) : list (string * drop) :=
+    match o with Produced d => d | Refused _ => [] end.
+
+  (* the id of the genesis reward (block of timestamp 10): 100 to "V", yielding *)
+  Definition gref : string := gid None None 10.
+
+  (* ---- A. a kept transaction spends an output of the tip block ---- *)
+  (* block 10: genesis. block 20: tA (spends the genesis reward). Then tB spends tA's output,
+     which block 20 - the tip - created *)
+  Definition tA : tx :=
+    mkTx "tA" (Some [mkInput 0 gref "V" "s"]) (Some [mkOutput "A" false 60; mkOutput "V" false 39]) 15.
+  Definition tB : tx :=
+    mkTx "tB" (Some [mkInput 0 "tA" "A" "s"]) (Some [mkOutput "B" false 50]) 25.
+  Definition a1 : node := STEP node_empty (OpValidate 10 []).
+  Definition a2 : node := STEP a1 (OpAdd tA).
+  Definition a3 : node := STEP a2 (OpValidate 20 [0%nat]).
+  Definition a4 : node := STEP a3 (OpAdd tB).
+  Definition a5 : node := fst (VAL a4 30 [0%nat]).
+
+  Lemma a4_reach : RCH a4.
+  Proof.
+    unfold a4, a3, a2, a1.
+    apply reach_step; [apply reach_step; [apply reach_step; [apply reach_step; [apply reach_init|]|]|]|].
+    - left. reflexivity.
+    - exact I.
+    - right. exists 1%Z. split; [lia|]. vm_compute. reflexivity.
+    - exact I.
+  Qed.
+
+  Theorem last_block_spend_refuted :
+    exists (n : node) (ts : Z) (perm : list nat) (n' : node) (d : list (string * drop))
+           (tip b : block) (t : tx) (i : input) (t' : tx),
+      RCH n /\
+      VAL n ts perm = (n', Produced d) /\
+      last_block (chain (n_c n)) = Some tip /\
+      last_block (chain (n_c n')) = Some b /\
+      (b_ts b <= ts)%Z /\
+      (* a kept transaction of [b] spends an output of a transaction of the tip *)
+      In t (kept_of b) /\ In i (ins t) /\ In t' (txs tip) /\ i_ref i = t_id t' /\
+      (* refused as an extension of the tip ... *)
+      VER (n_c n) [tip] [tip; b] (removelast (chain (n_c n))) ts = Err EUnknownId /\
+      (* ... and in a full re-sync *)
+      VER (n_c n) (removelast (chain (n_c n))) (chain (n_c n) ++ [b])%list [] ts = Err EUnknownId.
+  Proof.
+    exists a4, 30%Z, [0%nat], a5, (log_of (snd (VAL a4 30 [0%nat]))), (tip_of_node a4), (tip_of_node a5),
+           tB, (mkInput 0 "tA" "A" "s"), tA.
+    split; [exact a4_reach|].
+    split; [vm_compute; reflexivity|].
+    split; [vm_compute; reflexivity|].
+    split; [vm_compute; reflexivity|].
+    split; [vm_compute; discriminate|].
+    split; [vm_compute; left; reflexivity|].
+    split; [left; reflexivity|].
+    split; [vm_compute; left; reflexivity|].
+    split; [reflexivity|].
+    split; vm_compute; reflexivity.
+  Qed.
+
+  (* the same block is accepted by a receiver for which it competes with its own tip *)
+  Definition a5' : node := STEP a3 (OpValidate 30 []).
+  Lemma last_block_spend_competitor_accepted :
+    VER (n_c a5') [tip_of_node a5'] [tip_of_node a5] (removelast (chain (n_c a5'))) 30
+    = Ok [tip_of_node a5].
+  Proof. vm_compute. reflexivity. Qed.
+
+  (* ---- B. a kept transaction spends an output of an earlier kept transaction ---- *)
+  (* blocks 10 and 20, then tC (spends the confirmed genesis reward) and tD (spends tC's output)
+     both enter the pool and both kept for block 30 *)
+  Definition tC : tx :=
+    mkTx "tC" (Some [mkInput 0 gref "V" "s"]) (Some [mkOutput "A" false 60; mkOutput "V" false 39]) 25.
+  Definition tD : tx :=
+    mkTx "tD" (Some [mkInput 0 "tC" "A" "s"]) (Some [mkOutput "B" false 50]) 26.
+  Definition s2 : node := STEP a1 (OpValidate 20 []).
+  Definition s3 : node := STEP s2 (OpAdd tC).
+  Definition s4 : node := STEP s3 (OpAdd tD).
+  Definition s5 : node := fst (VAL s4 30 [0%nat; 1%nat]).
+
+  Lemma s2_reach : RCH s2.
+  Proof.
+    unfold s2, a1. apply reach_step; [apply reach_step; [apply reach_init|]|].
+    - left. reflexivity.
+    - right. exists 1%Z. split; [lia|]. vm_compute. reflexivity.
+  Qed.
+
+  Lemma s4_reach : RCH s4.
+  Proof.
+    unfold s4, s3. apply reach_step; [apply reach_step; [exact s2_reach|]|]; exact I.
+  Qed.
+
+  Theorem same_block_spend_refuted :
+    exists (n : node) (ts : Z) (perm : list nat) (n' : node) (d : list (string * drop))
+           (tip b : block) (t : tx) (i : input) (t' : tx),
+      RCH n /\
+      VAL n ts perm = (n', Produced d) /\
+      last_block (chain (n_c n)) = Some tip /\
+      last_block (chain (n_c n')) = Some b /\
+      (b_ts b <= ts)%Z /\
+      (* a kept transaction of [b] spends an output of another kept transaction of [b] *)
+      In t (kept_of b) /\ In i (ins t) /\ In t' (kept_of b) /\ i_ref i = t_id t' /\
+      VER (n_c n) [tip] [tip; b] (removelast (chain (n_c n))) ts = Err EUnknownId /\
+      VER (n_c n) (removelast (chain (n_c n))) (chain (n_c n) ++ [b])%list [] ts = Err EUnknownId /\
+      (* a receiver for which [b] competes with its own tip refuses it as well *)
+      exists peer : node,
+        RCH peer /\ removelast (chain (n_c peer)) = chain (n_c n) /\
+        VER (n_c peer) [tip_of_node peer] [b] (removelast (chain (n_c peer))) ts = Err EUnknownId.
+  Proof.
+    exists s4, 30%Z, [0%nat; 1%nat], s5, (log_of (snd (VAL s4 30 [0%nat; 1%nat]))),
+           (tip_of_node s4), (tip_of_node s5), tD, (mkInput 0 "tC" "A" "s"), tC.
+    split; [exact s4_reach|].
+    split; [vm_compute; reflexivity|].
+    split; [vm_compute; reflexivity|].
+    split; [vm_compute; reflexivity|].
+    split; [vm_compute; discriminate|].
+    split; [vm_compute; right; left; reflexivity|].
+    split; [left; reflexivity|].
+    split; [vm_compute; left; reflexivity|].
+    split; [reflexivity|].
+    split; [vm_compute; reflexivity|].
+    split; [vm_compute; reflexivity|].
+    exists (STEP s2 (OpValidate 30 [])).
+    split.
+    - apply reach_step; [exact s2_reach|]. right. exists 1%Z. split; [lia|]. vm_compute. reflexivity.
+    - split; vm_compute; reflexivity.
+  Qed.
+
+  (* ---- C. a yielding output for an address the tip block has just removed ---- *)
+  (* "V" fails the proof-of-humanity refresh after block 20; block 30 lists it as removed.
+     The producer of block 40 still has "V" registered (its registers lag one block behind), so
+     it does not list "V" as added when tE gives it a yielding output. tE spends a confirmed
+     output only. A receiver that has applied block 30 (it produced its own block 40) finds
+     "V" neither registered nor added *)
+  Definition tE : tx :=
+    mkTx "tE" (Some [mkInput 0 gref "V" "s"]) (Some [mkOutput "V" true 50; mkOutput "A" false 49]) 35.
+  Definition j3 : node := STEP s2 (OpRegSync (fun _ => Some false) ["V"]).
+  Definition j4 : node := STEP j3 (OpValidate 30 []).
+  Definition j5 : node := STEP j4 (OpAdd tE).
+  Definition j6 : node := fst (VAL j5 40 [0%nat]).
+  Definition p6 : node := STEP j4 (OpValidate 40 []).
+
+  Lemma j4_reach : RCH j4.
+  Proof.
+    unfold j4, j3. apply reach_step; [apply reach_step; [exact s2_reach|exact I]|].
+    right. exists 1%Z. split; [lia|]. vm_compute. reflexivity.
+  Qed.
+
+  Theorem just_removed_competitor_witness :
+    exists (n : node) (ts : Z) (perm : list nat) (n' : node) (d : list (string * drop))
+           (tip b : block) (peer : node) (b' : block) (x : string),
+      RCH n /\ RCH peer /\
+      VAL n ts perm = (n', Produced d) /\
+      last_block (chain (n_c n)) = Some tip /\
+      last_block (chain (n_c n')) = Some b /\
+      chain (n_c peer) = (chain (n_c n) ++ [b'])%list /\
+      ur (n_c peer) = ur (n_c n') /\ ar (n_c peer) = ar (n_c n') /\
+      (* wallet-style: only confirmed outputs are spent *)
+      confirmed_only (ur (n_c n)) (ur (n_c n')) b /\
+      (* the address: removed by the tip, not added by it, paid a yielding output by [b] *)
+      In x (yielding_addrs (kept_of b)) /\ In x (elems (b_removed tip)) /\ ~ In x (elems (b_added tip)) /\
+      (* accepted as an extension, refused as a competitor *)
+      VER (n_c n) [tip] [tip; b] (removelast (chain (n_c n))) ts = Ok [tip; b] /\
+      VER (n_c peer) [b'] [b] (removelast (chain (n_c peer))) ts = Err EUnregistered.
+  Proof.
+    exists j5, 40%Z, [0%nat], j6, (log_of (snd (VAL j5 40 [0%nat]))), (tip_of_node j5), (tip_of_node j6),
+           p6, (tip_of_node p6), "V".
+    split; [unfold j5; apply reach_step; [exact j4_reach|exact I]|].
+    split.
+    { unfold p6. apply reach_step; [exact j4_reach|].
+      right. exists 1%Z. split; [lia|]. vm_compute. reflexivity. }
+    split; [vm_compute; reflexivity|].
+    split; [vm_compute; reflexivity|].
+    split; [vm_compute; reflexivity|].
+    split; [vm_compute; reflexivity|].
+    split; [vm_compute; reflexivity|].
+    split; [vm_compute; reflexivity|].
+    split.
+    { unfold confirmed_only.
+      assert (Ek : kept_of (tip_of_node j6) = [tE]) by (vm_compute; reflexivity).
+      rewrite Ek. cbn [conf_run]. split; [|intros u' _; exact I].
+      intros i [Hi|[]]. subst i.
+      exists (mkUtxo gref 0 (mkOutput "V" true 100) 10). split; vm_compute; reflexivity. }
+    split; [vm_compute; left; reflexivity|].
+    split; [vm_compute; left; reflexivity|].
+    split; [vm_compute; intros []|].
+    split; vm_compute; reflexivity.
+  Qed.
+
+  (* ---- D. an accepted wallet-style block: the hypotheses of the positive theorems hold ---- *)
+  (* AcceptExample: chain [g; e1], pool [t0] (spends the two genesis outputs), block b2 at 30 *)
+  Import AcceptExample.
+
+  Lemma ex_produced :
+    validate AcceptExample.vf AcceptExample.ao so_strict Hx AcceptExample.gid AcceptExample.Sx "V" n1 30 [0%nat]
+    = (n2, Produced []).
+  Proof. vm_compute. reflexivity. Qed.
+
+  Lemma ex_confirmed_only : confirmed_only (ur (n_c n1)) (ur (n_c n2)) b2.
+  Proof.
+    unfold confirmed_only.
+    assert (Ek : kept_of b2 = [t0]) by (vm_compute; reflexivity).
+    rewrite Ek. cbn [conf_run]. split; [|intros u' _; exact I].
+    intros i [Hi|[Hi|[]]]; subst i.
+    - exists uA. split; vm_compute; reflexivity.
+    - exists uB. split; vm_compute; reflexivity.
+  Qed.
+
+  Lemma ex_replay : exists u1, update_utxos (ur (n_c n2)) (txs b2) (b_ts b2) = Ok u1.
+  Proof. vm_compute. eexists. reflexivity. Qed.
+
+  Lemma ex_extension_accepted :
+    verify AcceptExample.vf AcceptExample.ao so_strict Hx AcceptExample.Sx (n_c n1) [e1] [e1; b2]
+           (removelast (chain (n_c n1))) 30 = Ok [e1; b2].
+  Proof. vm_compute. reflexivity. Qed.
+End HonestExample.
